@@ -220,15 +220,20 @@ pub fn inject_case<S: HB>(cfg: &HistCfg, build: &[Op], op: &Op, class: usize, n:
         let mut g = Gen { rng: Rng::new(rng.next()), prof, base, orig_max: cfg.max, target_len: 4 };
         let steps = match fixed_further { Some(f) => f.len(), None => rng.range(p.further_min, p.further_max) };
         let light = |len: usize| ObsOpts { universe, owned_form: false, traversals: true, limit: len + 8 };
-        // After a panic inside mutate (in the closure or in the size measurement that follows it) the value's actual
-        // size may differ from the size recorded for it. C16 speaks about the *recorded* sizes only, and C02 excludes
-        // sizes that change outside a completed mutate, so the further use does not resize that entry again.
+        // After a panic inside mutate (in the closure or in a size measurement that follows it) the value's actual size
+        // may differ from the size recorded for it; C16 speaks about the *recorded* sizes only. Mutating that entry again
+        // is legal further use and must neither panic nor break what C16 states (structure, ledger, recorded sum). This is
+        // the history of finding D8: the pre-fix library derived the new record from the stale one and underflowed.
         let frozen: Option<u32> = if matches!(op, Op::Mutate { .. }) { op.target_id() } else { None };
         let mut ob = observe(&caches[cur], &light(64));
         for fi in 0..steps {
-            let fop = match fixed_further { Some(f) => f[fi].clone(), None => g.next_op(&ob, cfg, caches.len(), cur) };
+            let fop = match fixed_further { Some(f) => f[fi].clone(), None => match frozen { Some(fz) if fi == 0 && ob.has(fz) && g.rng.chance(1, 2) => {
+                    // (the entry's size must stay representable in usize, as everywhere in the harness)
+                    let room = ob.find(fz).map(|e| (usize::MAX - base).saturating_sub(e.kheap)).unwrap_or(0);
+                    Op::Mutate { id: fz, owned: g.rng.chance(1, 4), vh: g.rng.usize_below(4).min(room) } }, _ => g.next_op(&ob, cfg, caches.len(), cur) } };
             if matches!(fop, Op::TryReserveFail { .. } | Op::Into { .. }) { continue; }
-            if let (Some(fz), Op::Mutate { id, .. }) = (frozen, &fop) { if *id == fz { continue; } }
+            let remutate = matches!((frozen, &fop), (Some(fz), Op::Mutate { id, .. }) if *id == fz);
+            if remutate { out.stats.count("c16_remutate_after_panicked_mutate"); }
             if matches!(&fop, Op::Switch { idx } | Op::DropCache { idx } if *idx >= caches.len()) { continue; }
             oplog.push(fop.clone());
             let fo = apply(&mut caches, &mut cur, &fop, &mut held, base);
